@@ -91,6 +91,10 @@ pub const ASYNC_KINDS: &[Kind] = &[
 pub const QUERY_INDEX_KINDS: &[Kind] = &[Kind::Bai, Kind::Csi, Kind::Tabix, Kind::Gzi, Kind::Crai];
 
 pub fn has_async_reader(kind: Kind, variant: u8) -> bool {
+    if super::kinds::is_util_variant(kind, variant) {
+        // the facade readers are compared in their sync form only
+        return false;
+    }
     match kind {
         // read_to_end / read-777 / fill_buf
         Kind::Bgzf => true,
